@@ -27,6 +27,8 @@ class World:
         self.flags = ['-O0', '-Iinc1']; self.lang = None; self.out = 'out.o'; self.env = {}
         self.seen = {}            # fingerprint -> True once stored
         self.trace = []; self.fails = []; self.hits = self.misses = 0
+        self.keep_outputs = rng.random() < 0.5
+        self.snaps = []           # world states whose request was stored (successful miss or hit)
     def write(self, rel, text):
         p = os.path.join(self.w, rel)
         with open(p, 'w') as f: f.write(text)
@@ -43,19 +45,34 @@ class World:
         env = dict(self.env)
         before = counts(self.sc.stats() or {}) if True else {}
         nlog = loglines(self.log)
-        for p_ in (out, out[:-2] + '.dwo'):
-            try: os.remove(p_)
-            except OSError: pass
-        r = self.sc.compile(argv, self.w, env=env)
         dwo = out[:-2] + '.dwo'
+        # outputs left behind by the previous build stay in place (as in a real build tree) in half of the worlds; the direct
+        # compile then starts from the same leftover state
+        saved = {}; left = {p_: file_state(p_) for p_ in (out, dwo)} if self.keep_outputs else {}
+        for p_ in (out, dwo):
+            if self.keep_outputs and os.path.isfile(p_): saved[p_] = (open(p_, 'rb').read(), stat.S_IMODE(os.stat(p_).st_mode))
+            else:
+                try: os.remove(p_)
+                except OSError: pass
+        r = self.sc.compile(argv, self.w, env=env)
         got = (r.returncode, r.stdout, r.stderr, file_state(out), file_state(dwo) and file_state(dwo)[0])
         ran = loglines(self.log) - nlog
         after = counts(self.sc.stats() or {})
         for p_ in (out, dwo):
             try: os.remove(p_)
             except OSError: pass
+            if p_ in saved:
+                with open(p_, 'wb') as f: f.write(saved[p_][0])
+                os.chmod(p_, saved[p_][1])
         d = subprocess.run(argv, cwd=self.w, env=dict(os.environ, **env), capture_output=True)
         want = (d.returncode, d.stdout, d.stderr, file_state(out), file_state(dwo) and file_state(dwo)[0])
+        if want[0] != 0 and left:
+            # a failing request produces no output file on either side; what happens to a *stale* file left at the output path by
+            # an earlier build differs (sccache removes it, gcc/clang leave it) and is not part of the statement (DESIGN §9):
+            # an absent or unchanged leftover counts as "no output"
+            def nz(x, l): return None if (x is None or x == l) else x
+            got = got[:3] + (nz(got[3], left.get(out)), nz(got[4], left.get(dwo) and left[dwo][0]))
+            want = want[:3] + (nz(want[3], left.get(out)), nz(want[4], left.get(dwo) and left[dwo][0]))
         dh = after.get('cache_hits', 0) - before.get('cache_hits', 0); dm = after.get('cache_misses', 0) - before.get('cache_misses', 0)
         cls = 'hit' if dh else ('miss' if dm else 'other')
         self.hits += dh; self.misses += dm
@@ -69,15 +86,22 @@ class World:
                 # bytes equal, permission bits = direct ones masked by the daemonized server's umask 027 (finding F-C01-d)
                 self.fails.append({'kind': 'output_mode_masked_by_server_umask', 'detail': f'mode {got[3][1]:o} instead of {want[3][1]:o} ({cls})', 'ops': list(self.trace)})
             else:
-                self.fails.append({'kind': 'differs_from_direct', 'detail': f'{"/".join(what)} differ from the direct compile after [{note}] ({cls})', 'ops': list(self.trace)})
+                short = lambda t: (t[3] and (t[3][0][:8], oct(t[3][1])), t[4] and t[4][:8])
+                self.fails.append({'kind': 'differs_from_direct', 'detail': f'{"/".join(what)} differ from the direct compile after [{note}] ({cls})', 'ops': list(self.trace) + [f'wrapped: rc={got[0]} object/.dwo {short(got)}; direct: rc={want[0]} object/.dwo {short(want)}; leftover outputs kept: {sorted(os.path.basename(k) for k in saved)}']})
         if expect_cacheable and want[0] == 0:
             if fp in self.seen and not evicted:
                 if cls != 'hit' or ran != 0:
                     self.fails.append({'kind': 'repeat_not_hit', 'detail': f'identical successful request was stored earlier but [{note}] was classified {cls}, compiler ran {ran}x', 'ops': list(self.trace)})
-            if cls in ('hit', 'miss'): self.seen[fp] = True
+            if cls in ('hit', 'miss'):
+                self.seen[fp] = True
+                if len(self.snaps) < 40: self.snaps.append((dict(self.files), list(self.flags), self.lang, self.out, dict(self.env)))
         if cls == 'hit' and ran != 0:
             self.fails.append({'kind': 'hit_ran_compiler', 'detail': f'[{note}] counted as a hit but the compiler ran', 'ops': list(self.trace)})
         return cls
+    def revisit(self, snap):
+        files, self.flags, self.lang, self.out, self.env = snap[0], list(snap[1]), snap[2], snap[3], dict(snap[4])
+        for k, v in files.items():
+            if self.files.get(k) != v: self.write(k, v)
     def restart(self):
         self.sc.stop(); self.sc.start(); self.trace.append('restart server')
 
@@ -168,11 +192,19 @@ def run_fault_histories(root, tag, compiler, seed, n_hist, n_req, sc_env=None):
     return {'requests': reqs, 'fault_kinds': kinds, 'fails': fails, 'samples': samples}
 
 # ------------------------------------------------------------------------------------------------ read-only cache (C15)
-def run_readonly(root, tag, compiler, seed, n_hist, n_req, oversize=False, damage=True):
+def run_readonly(root, tag, compiler, seed, n_hist, n_req, oversize=False, damage=True, conf='env'):
     rng = random.Random(seed); fails = []; reqs = hits = 0; entries = 0; samples = []
     for h in range(n_hist):
         direct = (h % 2 == 0)
         w = World(os.path.join(root, f'r{h}'), f'{tag}r{h}', compiler, rng, direct_mode=direct)
+        if conf == 'rw_mode_only':
+            # the only disk-cache variable in the environment will be SCCACHE_LOCAL_RW_MODE: cache at its default location (below a private XDG_CACHE_HOME)
+            for k in ('SCCACHE_DIR', 'SCCACHE_DIRECT', 'SCCACHE_CACHE_SIZE'): w.sc.env.pop(k, None)
+            w.sc.env['XDG_CACHE_HOME'] = os.path.join(w.root, 'xdg'); w.sc.env['HOME'] = os.path.join(w.root, 'home'); os.makedirs(w.sc.env['HOME'], exist_ok=True)
+            w.sc.cache = os.path.join(w.root, 'xdg', 'sccache')
+        elif conf == 'file':
+            w.sc.env.pop('SCCACHE_DIRECT', None); w.sc.use_config({'use_preprocessor_cache_mode': direct})
+        w.trace.append(f'--- configuration variant {conf}: cache directory {os.path.relpath(w.sc.cache, w.root)}')
         w.sc.start()
         try:
             # populate read-write
@@ -194,11 +226,19 @@ def run_readonly(root, tag, compiler, seed, n_hist, n_req, oversize=False, damag
             ro_env = {'SCCACHE_LOCAL_RW_MODE': 'READ_ONLY'}
             if oversize: ro_env['SCCACHE_CACHE_SIZE'] = '1K'
             if h % 3 == 2: ro_env['SCCACHE_RECACHE'] = '1'
-            w.sc.env.update(ro_env); w.sc.start(); w.trace.append(f'--- server restarted read-only {ro_env}')
+            if conf == 'file':
+                # the config-file spelling of read-only mode
+                ro_env.pop('SCCACHE_LOCAL_RW_MODE')
+                cf = w.sc.env['SCCACHE_CONF']; t = open(cf).read().replace('size = 10737418240\n', 'size = 10737418240\nrw_mode = "READ_ONLY"\n'); open(cf, 'w').write(t)
+                if oversize: ro_env = {}
+            w.sc.env.update(ro_env); w.sc.start(); w.trace.append(f'--- server restarted read-only ({conf}) {ro_env}')
             h0 = w.hits
             recache = 'SCCACHE_RECACHE' in ro_env
             for i in range(n_req):
-                note = mutate(w, rng) if rng.random() < 0.6 else 'repeat'
+                x = rng.random()
+                if x < 0.4 and w.snaps: w.revisit(rng.choice(w.snaps)); note = 'revisit a populated state'
+                elif x < 0.8: note = mutate(w, rng)
+                else: note = 'repeat'
                 if note == 'restart': w.trace.append('(restart keeps the read-only environment)')
                 # in read-only mode nothing new is ever stored: only what was populated can hit
                 fp = w.fingerprint(); known = fp in w.seen
@@ -360,7 +400,34 @@ def run_direct_mode_layouts(root, tag, compiler):
             samples.append(' ; '.join(trace))
         finally:
             sc.stop(); shutil.rmtree(d, ignore_errors=True)
-    return {'requests': reqs, 'hits': hits, 'layouts': len(layouts), 'fails': fails, 'samples': samples[:1]}
+    # ---- header search through the environment: the variable the front end in use reads must be part of the manifest key
+    driver_cxx = os.path.basename(compiler) in ('g++', 'clang++')
+    for src, xflag, var in (('main.cpp', [], 'CPLUS_INCLUDE_PATH'), ('main.c', [], 'CPLUS_INCLUDE_PATH' if driver_cxx else 'C_INCLUDE_PATH'), ('main.c', ['-x', 'c++'], 'CPLUS_INCLUDE_PATH'), ('main.cpp', ['-x', 'c'], 'C_INCLUDE_PATH'), ('main.c', [], 'CPATH')):
+        name = f'env_{var}_{src}_{"".join(xflag)}'
+        d = os.path.join(root, 'lay_' + name); shutil.rmtree(d, ignore_errors=True); w = os.path.join(d, 'w'); os.makedirs(os.path.join(w, 'incA')); os.makedirs(os.path.join(w, 'incB'))
+        open(os.path.join(w, 'incA', 'ver.h'), 'w').write('#define B 41\n'); open(os.path.join(w, 'incB', 'ver.h'), 'w').write('#define B 42\n')
+        open(os.path.join(w, src), 'w').write('#include <ver.h>\nint f(void) { return B; }\n')
+        old = time.time() - 3600
+        for rel in ('incA/ver.h', 'incB/ver.h', src): os.utime(os.path.join(w, rel), (old, old))
+        sc = Sc(os.path.join(d, 'sc'), f'{tag}{name}'); sc.use_config({'use_preprocessor_cache_mode': True}); sc.start()
+        argv = [compiler, '-O0'] + xflag + ['-c', src, '-o', 'out.o']; trace = [f'layout {name}: <ver.h> found through ${var}; argv {argv[1:]}']
+        try:
+            time.sleep(1.1)
+            for step, val in (('first', 'incA'), ('other directory', 'incB'), ('back', 'incA'), ('other again', 'incB')):
+                env = {var: os.path.join(w, val)}
+                out = os.path.join(w, 'out.o')
+                if os.path.exists(out): os.remove(out)
+                b = counts(sc.stats() or {})
+                r = sc.compile(argv, w, env=env); got = (r.returncode, r.stdout, r.stderr, file_state(out) and file_state(out)[0])
+                a = counts(sc.stats() or {}); cls = 'hit' if a.get('cache_hits', 0) > b.get('cache_hits', 0) else 'miss'; hits += cls == 'hit'
+                if os.path.exists(out): os.remove(out)
+                dr = subprocess.run(argv, cwd=w, env=dict(os.environ, **env), capture_output=True); want = (dr.returncode, dr.stdout, dr.stderr, file_state(out) and file_state(out)[0])
+                reqs += 1; trace.append(f'{step}: {var}={val} -> rc={got[0]} {cls}')
+                if got != want:
+                    fails.append({'kind': 'direct_mode_stale_result', 'detail': f'layout {name}: [{step}: {var}={val}] result differs from the direct compile ({cls})', 'ops': list(trace)}); break
+        finally:
+            sc.stop(); shutil.rmtree(d, ignore_errors=True)
+    return {'requests': reqs, 'hits': hits, 'layouts': len(layouts) + 5, 'fails': fails, 'samples': samples[:1]}
 
 # ------------------------------------------------------------------------------------------------ scripted corpus histories (run first)
 def _set(attr, val):
@@ -369,7 +436,12 @@ def _set(attr, val):
 def _flags(add=(), remove=()):
     def f(w): w.flags = [x for x in w.flags if x not in remove] + [x for x in add if x not in w.flags]
     return f
+def _src(k):
+    def f(w): w.write('main.c', SRC.format(fn='f', k=k))
+    return f
 CORPUS = {
+    # the previous build's object stays at the output path; a reverted source must bring the old object back (sizes are equal)
+    'revert_with_output_in_place': [('outputs stay in place; edit source (same size)', [_set('keep_outputs', True), _src(2)]), ('revert source', [_src(1)]), ('edit again', [_src(2)]), ('revert again', [_src(1)])],
     # the object of a -gsplit-dwarf compile names its .dwo companion: the same file name in another directory must not be served from the first
     'split_dwarf_two_output_dirs': [('enable -g -gsplit-dwarf, output o1/out.o', [_flags(add=('-g', '-gsplit-dwarf')), _set('out', 'o1/out.o')]), ('same name in o2', [_set('out', 'o2/out.o')]),
                                     ('back to o1', [_set('out', 'o1/out.o')]), ('plain name', [_set('out', 'out.o')])],
